@@ -253,7 +253,7 @@ def handleWire (id req obs alloc : String) : Except String Verdict := do
   let some r := fromHex req | throw "outside-domain: request"
   let some al := alloc.toNat? | throw "outside-domain: alloc"
   -- validation run (not proof): no model of fasthttp's request parser; the oracles are in the spec
-  pure { id := id, modelObs := obs, implObs := obs, spec := specWire r.length obs al,
+  pure { id := id, modelObs := obs, implObs := obs, spec := specWire r obs al,
          tags := ["wire", if obs.startsWith "ok" then "wire-answered" else "wire-" ++ (obs.take 7).toString] }
 
 def handleCase (f : List String) : Except String Verdict := do
